@@ -179,6 +179,10 @@ def _make_device_class():
         def attach_memory(self, device_memory):
             self.dm = device_memory
             self._maybe_fault(-1, 'attach')
+            if self.script.get('attach'):
+                # a device may use the memory hook as soon as it gets it (preload a table, patch a variable)
+                self.log.append(('attach',))
+                self._actions('attach')
 
         def write_bit(self, bit):
             idx = self.n
@@ -212,6 +216,9 @@ def _make_device_class():
 
         def get_output(self, *, allow_incomplete_output=False):
             bits = [e[2] for e in self.log if e[0] == 'w']
+            if not allow_incomplete_output and len(bits) % 8:
+                from flipjump.utils.exceptions import IncompleteOutput
+                raise IncompleteOutput('an unaligned number of bits was outputted')
             out = bytearray()
             for i in range(0, len(bits) - len(bits) % 8, 8):
                 out.append(sum(b << k for k, b in enumerate(bits[i:i + 8])))
@@ -291,7 +298,16 @@ def run_engine(case, cfg, fjm_path, probe_mode='touched', device=None, breakpoin
     obs = {}
     stats = None
     try:
-        if cfg.get('trace'):
+        if cfg.get('via') == 'quickstart':
+            # through the public wrapper flipjump.run (quickstart): it prints the termination, incl. the output so far
+            import contextlib
+            import io as _io
+            import flipjump
+            with contextlib.redirect_stdout(_io.StringIO()):
+                stats = flipjump.run(fjm_path, io_device=dev, print_time=False, print_termination=True,
+                                     last_ops_debugging_list_length=cfg.get('last_ops'),
+                                     profile=(cfg['engine'] == 'featured'), flat_max_words=cfg.get('flat_max_words'))
+        elif cfg.get('trace'):
             # the tracing variant of the featured loop (prints every op): selected by show_trace, not by profile
             import contextlib
             import io as _io
